@@ -1,5 +1,5 @@
 """C04 Every uplink follows the WARP link state machine; no fabricated frames."""
-from mirlib import AnchorMissing, describe_operand, dom_guards, guards, _suffix_match
+from mirlib import describe_place, AnchorMissing, describe_operand, dom_guards, guards, _suffix_match
 from rules import uplinks
 from rules.common import named_argument_rule, aggregates, callers_by_name, owner_def, where
 
@@ -137,7 +137,23 @@ def run(ctx):
         sw = [c for c in ep.calls if c.name == "schedule_write"]
         r.check(len(sw) >= 2, "epilogue/writes-scheduled", where(ep), "unlink writes and follow-up writes are scheduled (%d sites)" % len(sw), "unlink writes are not scheduled")
         rep = [c for c in ep.calls if c.is_method("task::WriteTaskState", "replace")]
-        r.check(len(rep) == 1 and any(d.startswith("is_ok(") and l == "true" for d, l, _ in dom_guards(ep, rep[0].block)), "epilogue/rearm-after-write", where(ep), "after each completed write the writer is re-armed (state.replace)")
+        # the drain loop: it ends only when next_write() yields None; a failed write is skipped, never a reason to stop draining
+        nw = [c for c in ep.calls if c.name == "next_write"]
+        dr = [c for c in ep.calls if c.name == "dispose_of_remotes"]
+        opt = [si for si in ep.switches_on(lambda p, si: True) if si.get("kind") == "disc" and (si.get("adt") or "").endswith("option::Option") and "next_write" in describe_place(ep, si["place"])]
+        some = ep.variant_edges(opt[0]["block"]).get("Some") if opt else None
+        if len(nw) == 1 and len(dr) >= 1 and some is not None:
+            ok, w = ep.must_pass([some], {nw[0].block}, targets={c.block for c in dr})
+            r.check(ok, "epilogue/drain-ends-only-when-no-write-is-pending", where(ep), "after any completed write (successful or not) the loop asks for the next one; it ends only when none is pending",
+                    "a completed write can end the drain loop although other writes are still pending (path %s): their unlinked frames are dropped" % (w,))
+            res_guard = lambda d, l: (d.startswith("is_ok(") and l == "true") or (d.startswith("is_err(") and l == "false") or (d.startswith("disc(") and l == "Ok")
+            g = [(d, l) for d, l, blk in dom_guards(ep, rep[0].block) if ep.dominates(some, blk)] if len(rep) == 1 else []
+            r.check(len(rep) == 1 and ep.dominates(some, rep[0].block) and any(res_guard(d, l) for d, l in g) and all(res_guard(d, l) for d, l in g), "epilogue/rearm-after-write", where(ep),
+                    "after each successfully completed write the writer is re-armed (state.replace), whatever else holds", "state.replace in the drain loop is guarded by %s" % g)
+            fw = [c for c in sw if len(rep) == 1 and ep.dominates(rep[0].block, c.block)]
+            r.check(len(fw) == 1 and any(d.startswith("disc(replace(") and l == "Some" for d, l, _ in dom_guards(ep, fw[0].block)), "epilogue/follow-up-write-scheduled", where(ep), "a write handed back by replace is scheduled")
+        else:
+            r.bad("epilogue/drain-ends-only-when-no-write-is-pending", where(ep), "the drain loop over next_write() was not found")
         # the shutdown block is reached from every loop exit of write_task: it dominates the final Ok
         mk = [i for i, j, p, rv, line in wt.assigns() if rv[0] == "agg" and rv[1].get("coroutine", "").startswith(ep.defpath)]
         oks = [i for i, j, p, rv, line in wt.assigns() if p[0] == 0 and not p[1] and rv[0] == "agg" and rv[1].get("variant") == "Ok"]
